@@ -239,18 +239,13 @@ fn tag_of(sf: &SubFrame) -> usize {
     }
 }
 
-//@ unit props=C01,C09 tier=quick kind=bounded timeout=900 funcs="coding::try_stereo_coding; coding::recombine_stereo_frame; FrameBuf::fill_stereo_with_iter; ChannelAssignment::select_channels" stubs="encode_frame_impl -> some 2-subframe frame of arbitrary sizes, recording its input buffer" bound="2 samples per channel (the mid/side map is per-sample: complete in the sample values, every 8..24-bit width)"
-#[kani::proof]
-#[kani::unwind(10)]
-#[kani::stub(std::fmt::format, stub_format)]
-#[kani::stub(encode_frame_impl, contract_encode_frame_impl)]
-fn c01_stereo_midside_and_selection() {
+fn c01_stereo_midside_and_selection_body(wide: bool) {
     let mut cfg = config::Encoder::default();
     cfg.stereo_coding.use_leftside = kani::any();
     cfg.stereo_coding.use_rightside = kani::any();
     cfg.stereo_coding.use_midside = kani::any();
     let bits: usize = kani::any();
-    kani::assume(bits == 8 || bits == 12 || bits == 16 || bits == 20 || bits == 24);
+    kani::assume(if wide { bits == 20 || bits == 24 } else { bits == 8 || bits == 12 || bits == 16 });
     let l: [i32; 2] = kani::any();
     let r: [i32; 2] = kani::any();
     kani::assume(spec_fits(l[0] as i64, bits) && spec_fits(l[1] as i64, bits));
@@ -312,7 +307,25 @@ fn c01_stereo_midside_and_selection() {
     assert!(out.header().block_size() == 2);
     kani::cover!(*out.header().channel_assignment() == ChannelAssignment::MidSide);
     kani::cover!(*out.header().channel_assignment() == ChannelAssignment::RightSide);
-    kani::cover!(l[0] == -(1 << 23) && r[0] == (1 << 23) - 1);
+    kani::cover!(if wide { l[0] == -(1 << 23) && r[0] == (1 << 23) - 1 } else { l[0] == -(1 << 15) && r[0] == (1 << 15) - 1 });
+}
+
+//@ unit props=C01,C09 tier=quick kind=bounded timeout=900 funcs="coding::try_stereo_coding; coding::recombine_stereo_frame; FrameBuf::fill_stereo_with_iter; ChannelAssignment::select_channels" stubs="encode_frame_impl -> some 2-subframe frame of arbitrary sizes, recording its input buffer" bound="widths 8/12/16; 2 samples per channel (the mid/side map is per-sample: complete in the sample values, every 8..24-bit width)"
+#[kani::proof]
+#[kani::unwind(10)]
+#[kani::stub(std::fmt::format, stub_format)]
+#[kani::stub(encode_frame_impl, contract_encode_frame_impl)]
+fn c01_stereo_midside_and_selection() {
+    c01_stereo_midside_and_selection_body(false);
+}
+
+//@ unit props=C01,C09 tier=quick kind=bounded timeout=900 funcs="coding::try_stereo_coding; coding::recombine_stereo_frame; FrameBuf::fill_stereo_with_iter; ChannelAssignment::select_channels" stubs="encode_frame_impl -> some 2-subframe frame of arbitrary sizes, recording its input buffer" bound="widths 20/24; 2 samples per channel (the mid/side map is per-sample: complete in the sample values, every 8..24-bit width)"
+#[kani::proof]
+#[kani::unwind(10)]
+#[kani::stub(std::fmt::format, stub_format)]
+#[kani::stub(encode_frame_impl, contract_encode_frame_impl)]
+fn c01_stereo_midside_and_selection_wide() {
+    c01_stereo_midside_and_selection_body(true);
 }
 
 // ================================================================================================
